@@ -36,15 +36,25 @@ theorem fsum_all_none {ι : Type} (A : AggType) (l : List ι) (f : ι → Option
     rw [fsum_cons, h x (by simp), ih (fun i hi => h i (by simp [hi]))]
     rfl
 
-/-! ### arrays with one agg type -/
+theorem fsum_add {ι : Type} {A : AggType} (hc : AggComm A) (l : List ι) (f g : ι → Option Int) :
+    fsum A l (fun i => ocomb A (f i) (g i)) = ocomb A (fsum A l f) (fsum A l g) := by
+  induction l with
+  | nil => rfl
+  | cons x rest ih =>
+    rw [fsum_cons, fsum_cons, fsum_cons, ih]
+    -- (a ⊕ b) ⊕ (F ⊕ G) = (a ⊕ F) ⊕ (b ⊕ G)
+    rw [ocomb_assoc, ocomb_assoc]
+    congr 1
+    rw [← ocomb_assoc, ← ocomb_assoc, ocomb_comm hc (g x) (fsum A rest f)]
 
-/-- well-formed single-agg-type arrays: one association list with distinct target slots. -/
-def WF1 (A : AggType) (a : Arrays) : Prop := ∃ m : List (Nat × Int), a = [(A, m)] ∧ (m.map Prod.fst).Nodup
+theorem fsum_congr {ι : Type} (A : AggType) (l : List ι) (f g : ι → Option Int) (h : ∀ i ∈ l, f i = g i) :
+    fsum A l f = fsum A l g := by
+  induction l with
+  | nil => rfl
+  | cons x rest ih =>
+    rw [fsum_cons, fsum_cons, h x (by simp), ih (fun i hi => h i (by simp [hi]))]
 
-theorem WF1_init (A : AggType) : WF1 A (Arrays.init [A]) := ⟨[], rfl, by simp⟩
-
-theorem arrGet_single (A : AggType) (m : List (Nat × Int)) (t : Nat) : arrGet [(A, m)] A t = Map.lookup m t := by
-  simp [arrGet, Map.lookup]
+/-! ### arrays with several agg types -/
 
 theorem keys_upsert_of_mem (m : List (Nat × Int)) (k : Nat) (v : Int) (h : k ∈ m.map Prod.fst) :
     (Map.upsert m k v).map Prod.fst = m.map Prod.fst := by
@@ -97,27 +107,173 @@ theorem nodup_upsert (m : List (Nat × Int)) (k : Nat) (v : Int) (h : (m.map Pro
     subst hb
     intro e; subst e; exact hk ha
 
-/-- `AggregateBySlot` on single-agg-type arrays. -/
-theorem aggregateBySlot_single (A : AggType) (a : Arrays) (hw : WF1 A a) (t : Nat) (v : Int) :
-    WF1 A (aggregateBySlot a t v) ∧
-    ∀ t', arrGet (aggregateBySlot a t v) A t' =
-      if t = t' then ocomb A (arrGet a A t) (some v) else arrGet a A t' := by
-  obtain ⟨m, rfl, hn⟩ := hw
-  constructor
-  · refine ⟨_, by simp [aggregateBySlot]; rfl, ?_⟩
-    cases hl : Map.lookup m t <;> simp only [hl] <;> exact nodup_upsert m t _ hn
-  · intro t'
-    simp only [aggregateBySlot, List.map_cons, List.map_nil, arrGet_single]
-    by_cases ht : t = t'
-    · subst ht
-      cases hl : Map.lookup m t <;> simp [hl, Map.lookup_upsert_self, ocomb]
-    · cases hl : Map.lookup m t <;> simp [hl, ht, Map.lookup_upsert_ne _ _ _ _ ht]
+/-- every array has distinct target slots. -/
+def KeysOK (a : Arrays) : Prop := ∀ p ∈ a, (p.2.map Prod.fst).Nodup
+
+/-- well-formed arrays for the agg types `L` (a field aggregator: one array per agg type). -/
+def WFL (L : List AggType) (a : Arrays) : Prop := a.map Prod.fst = L ∧ L.Nodup ∧ KeysOK a
+
+theorem WFL_init (L : List AggType) (hL : L.Nodup) : WFL L (Arrays.init L) := by
+  have hid : (Prod.fst ∘ fun (A : AggType) => (A, ([] : List (Nat × Int)))) = id := rfl
+  refine ⟨by simp [Arrays.init, List.map_map, hid], hL, ?_⟩
+  intro p hp
+  simp only [Arrays.init, List.mem_map] at hp
+  obtain ⟨A, _, rfl⟩ := hp
+  simp
+
+/-- the aggregator has an array of type `A`. -/
+def Has (a : Arrays) (A : AggType) : Bool := (Map.lookup a A).isSome
+
+theorem has_of_mem_types (a : Arrays) (A : AggType) (h : A ∈ a.map Prod.fst) : Has a A = true := by
+  unfold Has
+  induction a with
+  | nil => simp at h
+  | cons p rest ih =>
+    obtain ⟨B, m⟩ := p
+    by_cases hb : B = A
+    · simp [Map.lookup, hb]
+    · simp only [List.map_cons, List.mem_cons] at h
+      rcases h with e | e
+      · exact absurd e.symm hb
+      · simp [Map.lookup, hb, ih e]
+
+theorem has_of_WFL {L : List AggType} {a : Arrays} (hw : WFL L a) {A : AggType} (hA : A ∈ L) : Has a A = true :=
+  has_of_mem_types a A (by rw [hw.1]; exact hA)
+
+theorem not_has_of_not_mem (a : Arrays) (A : AggType) (h : A ∉ a.map Prod.fst) : Has a A = false := by
+  unfold Has
+  induction a with
+  | nil => rfl
+  | cons p rest ih =>
+    obtain ⟨B, m⟩ := p
+    simp only [List.map_cons, List.mem_cons, not_or] at h
+    have hb : ¬(B = A) := fun e => h.1 e.symm
+    simp [Map.lookup, hb, ih h.2]
+
+theorem arrGet_none_of_not_has (a : Arrays) (A : AggType) (t : Nat) (h : Has a A = false) : arrGet a A t = none := by
+  unfold Has at h
+  unfold arrGet
+  cases hl : Map.lookup a A with
+  | none => rfl
+  | some m => rw [hl] at h; cases h
+
+theorem any_type_eq_has (a : Arrays) (B : AggType) :
+    (a.any fun (x : AggType × List (Nat × Int)) => decide (x.1 = B)) = Has a B := by
+  unfold Has
+  induction a with
+  | nil => rfl
+  | cons p rest ih =>
+    obtain ⟨C, m⟩ := p
+    by_cases hc : C = B
+    · simp [Map.lookup, hc]
+    · simp [Map.lookup, hc, ih]
+
+/-- one updated array. -/
+def upd (A : AggType) (m : List (Nat × Int)) (t : Nat) (v : Int) : List (Nat × Int) :=
+  match Map.lookup m t with
+  | some old => Map.upsert m t (A.agg old v)
+  | none => Map.upsert m t v
+
+theorem lookup_upd (A : AggType) (m : List (Nat × Int)) (t t' : Nat) (v : Int) :
+    Map.lookup (upd A m t v) t' = if t = t' then ocomb A (Map.lookup m t) (some v) else Map.lookup m t' := by
+  unfold upd
+  by_cases ht : t = t'
+  · subst ht
+    cases hl : Map.lookup m t <;> simp [Map.lookup_upsert_self, ocomb]
+  · cases hl : Map.lookup m t <;> simp [ht, Map.lookup_upsert_ne _ _ _ _ ht]
+
+theorem nodup_upd (A : AggType) (m : List (Nat × Int)) (t : Nat) (v : Int) (h : (m.map Prod.fst).Nodup) :
+    ((upd A m t v).map Prod.fst).Nodup := by
+  unfold upd
+  cases Map.lookup m t <;> exact nodup_upsert m t _ h
+
+/-- `AggregateBySlot`: every array of the aggregator gets the value, each with its own aggregate. -/
+theorem arrGet_aggregateBySlot (a : Arrays) (A : AggType) (t t' : Nat) (v : Int) :
+    arrGet (aggregateBySlot a t v) A t' =
+      if t = t' ∧ Has a A = true then ocomb A (arrGet a A t) (some v) else arrGet a A t' := by
+  unfold arrGet Has
+  induction a with
+  | nil => simp [aggregateBySlot, Map.lookup]
+  | cons p rest ih =>
+    obtain ⟨B, m⟩ := p
+    by_cases hb : B = A
+    · subst hb
+      simp only [aggregateBySlot, List.map_cons, Map.lookup, if_true, Option.isSome_some, and_true]
+      exact lookup_upd B m t t' v
+    · simp only [aggregateBySlot, List.map_cons, Map.lookup, hb, if_false] at ih ⊢
+      exact ih
+
+theorem types_aggregateBySlot (a : Arrays) (t : Nat) (v : Int) :
+    (aggregateBySlot a t v).map Prod.fst = a.map Prod.fst := by
+  simp [aggregateBySlot, List.map_map, Function.comp]
+
+theorem keysOK_aggregateBySlot (a : Arrays) (t : Nat) (v : Int) (h : KeysOK a) : KeysOK (aggregateBySlot a t v) := by
+  intro p hp
+  simp only [aggregateBySlot, List.mem_map] at hp
+  obtain ⟨p0, hp0, rfl⟩ := hp
+  exact nodup_upd p0.1 p0.2 t v (h p0 hp0)
+
+theorem WFL_aggregateBySlot {L : List AggType} {a : Arrays} (hw : WFL L a) (t : Nat) (v : Int) :
+    WFL L (aggregateBySlot a t v) :=
+  ⟨by rw [types_aggregateBySlot]; exact hw.1, hw.2.1, keysOK_aggregateBySlot a t v hw.2.2⟩
+
+theorem has_aggregateBySlot (a : Arrays) (A : AggType) (t : Nat) (v : Int) :
+    Has (aggregateBySlot a t v) A = Has a A := by
+  by_cases h : A ∈ a.map Prod.fst
+  · rw [has_of_mem_types a A h, has_of_mem_types _ A (by rw [types_aggregateBySlot]; exact h)]
+  · rw [not_has_of_not_mem a A h, not_has_of_not_mem _ A (by rw [types_aggregateBySlot]; exact h)]
+
+/-- `aggregateBySlotOfType`: only the arrays of type `B` get the value. -/
+theorem arrGet_ofType (a : Arrays) (A B : AggType) (t t' : Nat) (v : Int) :
+    arrGet (aggregateBySlotOfType a B t v) A t' =
+      if A = B ∧ t = t' ∧ Has a A = true then ocomb A (arrGet a A t) (some v) else arrGet a A t' := by
+  unfold arrGet Has
+  induction a with
+  | nil => simp [aggregateBySlotOfType, Map.lookup]
+  | cons p rest ih =>
+    obtain ⟨C, m⟩ := p
+    by_cases hc : C = A
+    · subst hc
+      by_cases hb : C = B
+      · subst hb
+        simp only [aggregateBySlotOfType, List.map_cons, if_true, Map.lookup, Option.isSome_some, and_true, true_and]
+        exact lookup_upd C m t t' v
+      · simp [aggregateBySlotOfType, Map.lookup, hb]
+    · by_cases hb : C = B
+      · subst hb
+        simp only [aggregateBySlotOfType, List.map_cons, if_true, Map.lookup, hc, if_false] at ih ⊢
+        exact ih
+      · simp only [aggregateBySlotOfType, List.map_cons, hb, if_false, Map.lookup, hc] at ih ⊢
+        exact ih
+
+theorem types_ofType (a : Arrays) (B : AggType) (t : Nat) (v : Int) :
+    (aggregateBySlotOfType a B t v).map Prod.fst = a.map Prod.fst := by
+  simp only [aggregateBySlotOfType, List.map_map]
+  apply List.map_congr_left
+  intro p _
+  simp only [Function.comp]
+  split <;> rfl
+
+theorem keysOK_ofType (a : Arrays) (B : AggType) (t : Nat) (v : Int) (h : KeysOK a) :
+    KeysOK (aggregateBySlotOfType a B t v) := by
+  intro p hp
+  simp only [aggregateBySlotOfType, List.mem_map] at hp
+  obtain ⟨p0, hp0, rfl⟩ := hp
+  split
+  · exact nodup_upd p0.1 p0.2 t v (h p0 hp0)
+  · exact h p0 hp0
+
+theorem has_ofType (a : Arrays) (A B : AggType) (t : Nat) (v : Int) :
+    Has (aggregateBySlotOfType a B t v) A = Has a A := by
+  by_cases h : A ∈ a.map Prod.fst
+  · rw [has_of_mem_types a A h, has_of_mem_types _ A (by rw [types_ofType]; exact h)]
+  · rw [not_has_of_not_mem a A h, not_has_of_not_mem _ A (by rw [types_ofType]; exact h)]
 
 /-! ### the down-sampling loop -/
 
-theorem dsLoop_spec (A : AggType) (get : Nat → Option Int) (tLo tHi g0 qs ratio : Nat) :
-    ∀ (slots : List Nat) (a : Arrays), WF1 A a → slots.Pairwise (· < ·) →
-      WF1 A (dsLoop get tLo tHi g0 qs ratio slots a) ∧
+theorem dsLoop_spec (L : List AggType) (A : AggType) (hA : A ∈ L) (get : Nat → Option Int) (tLo tHi g0 qs ratio : Nat) :
+    ∀ (slots : List Nat) (a : Arrays), WFL L a → slots.Pairwise (· < ·) →
+      WFL L (dsLoop get tLo tHi g0 qs ratio slots a) ∧
       ∀ t, arrGet (dsLoop get tLo tHi g0 qs ratio slots a) A t =
         ocomb A (arrGet a A t)
           (fsum A slots (fun s => if tLo ≤ s ∧ s ≤ tHi ∧ (g0 + s - qs) / ratio = t then get s else none)) := by
@@ -129,7 +285,6 @@ theorem dsLoop_spec (A : AggType) (get : Nat → Option Int) (tLo tHi g0 qs rati
     rw [List.pairwise_cons] at hp
     cases hg : get s with
     | none =>
-      -- no value: continue
       have := ih a hw hp.2
       simp only [dsLoop, hg]
       refine ⟨this.1, ?_⟩
@@ -139,8 +294,7 @@ theorem dsLoop_spec (A : AggType) (get : Nat → Option Int) (tLo tHi g0 qs rati
     | some v =>
       simp only [dsLoop, hg]
       by_cases h1 : s < tLo
-      · -- before the query range: continue
-        have := ih a hw hp.2
+      · have := ih a hw hp.2
         simp only [h1, if_true]
         refine ⟨this.1, ?_⟩
         intro t
@@ -149,8 +303,7 @@ theorem dsLoop_spec (A : AggType) (get : Nat → Option Int) (tLo tHi g0 qs rati
         simp [this]
       · simp only [h1, if_false]
         by_cases h2 : s > tHi
-        · -- beyond the query range: break; all remaining slots are beyond it, too
-          simp only [h2, if_true]
+        · simp only [h2, if_true]
           refine ⟨hw, ?_⟩
           intro t
           have hnone : fsum A (s :: rest)
@@ -164,13 +317,12 @@ theorem dsLoop_spec (A : AggType) (get : Nat → Option Int) (tLo tHi g0 qs rati
             have : ¬(tLo ≤ i ∧ i ≤ tHi ∧ (g0 + i - qs) / ratio = t) := by omega
             simp [this]
           rw [hnone]; simp
-        · -- inside: emit into the bucket
-          simp only [h2, if_false]
-          obtain ⟨hw', hv'⟩ := aggregateBySlot_single A a hw ((g0 + s - qs) / ratio) v
+        · simp only [h2, if_false]
+          have hw' := WFL_aggregateBySlot hw ((g0 + s - qs) / ratio) v
           have := ih _ hw' hp.2
           refine ⟨this.1, ?_⟩
           intro t
-          rw [this.2 t, hv' t, fsum_cons, hg]
+          rw [this.2 t, arrGet_aggregateBySlot, fsum_cons, hg, has_of_WFL hw hA]
           by_cases hb : (g0 + s - qs) / ratio = t
           · have : tLo ≤ s ∧ s ≤ tHi ∧ (g0 + s - qs) / ratio = t := ⟨by omega, by omega, hb⟩
             simp [hb, this, ocomb_assoc]
@@ -182,98 +334,274 @@ theorem slotsOf_pairwise (lo hi : Nat) : (slotsOf lo hi).Pairwise (· < ·) := b
   rw [List.pairwise_map]
   exact List.Pairwise.imp (fun h => by omega) List.pairwise_lt_range
 
-theorem dsCall_wf (A : AggType) (get : Nat → Option Int) (srcLo srcHi tLo tHi g0 qs ratio : Nat) :
-    WF1 A (dsCall [A] get srcLo srcHi tLo tHi g0 qs ratio) :=
-  (dsLoop_spec A get tLo tHi g0 qs ratio _ _ (WF1_init A) (slotsOf_pairwise srcLo srcHi)).1
+theorem arrGet_init (L : List AggType) (A : AggType) (t : Nat) : arrGet (Arrays.init L) A t = none := by
+  unfold arrGet Arrays.init
+  induction L with
+  | nil => rfl
+  | cons B rest ih =>
+    by_cases hb : B = A
+    · simp [Map.lookup, hb]
+    · simp only [List.map_cons, Map.lookup, hb, if_false]; exact ih
 
-theorem dsCall_spec (A : AggType) (get : Nat → Option Int) (srcLo srcHi tLo tHi g0 qs ratio t : Nat) :
-    arrGet (dsCall [A] get srcLo srcHi tLo tHi g0 qs ratio) A t =
+theorem dsLoop_wf (L : List AggType) (get : Nat → Option Int) (tLo tHi g0 qs ratio : Nat) :
+    ∀ (slots : List Nat) (a : Arrays), WFL L a → WFL L (dsLoop get tLo tHi g0 qs ratio slots a) := by
+  intro slots
+  induction slots with
+  | nil => intro a hw; exact hw
+  | cons s rest ih =>
+    intro a hw
+    simp only [dsLoop]
+    cases get s with
+    | none => exact ih a hw
+    | some v =>
+      simp only []
+      split
+      · exact ih a hw
+      · split
+        · exact hw
+        · exact ih _ (WFL_aggregateBySlot hw _ v)
+
+theorem dsCall_wf (L : List AggType) (hL : L.Nodup) (get : Nat → Option Int) (srcLo srcHi tLo tHi g0 qs ratio : Nat) :
+    WFL L (dsCall L get srcLo srcHi tLo tHi g0 qs ratio) :=
+  dsLoop_wf L get tLo tHi g0 qs ratio _ _ (WFL_init L hL)
+
+theorem dsCall_spec (L : List AggType) (hL : L.Nodup) (A : AggType) (hA : A ∈ L) (get : Nat → Option Int)
+    (srcLo srcHi tLo tHi g0 qs ratio t : Nat) :
+    arrGet (dsCall L get srcLo srcHi tLo tHi g0 qs ratio) A t =
       fsum A (slotsOf srcLo srcHi)
         (fun s => if tLo ≤ s ∧ s ≤ tHi ∧ (g0 + s - qs) / ratio = t then get s else none) := by
-  have := (dsLoop_spec A get tLo tHi g0 qs ratio _ _ (WF1_init A) (slotsOf_pairwise srcLo srcHi)).2 t
+  have := (dsLoop_spec L A hA get tLo tHi g0 qs ratio _ _ (WFL_init L hL) (slotsOf_pairwise srcLo srcHi)).2 t
   unfold dsCall
-  rw [this]
-  simp [Arrays.init, arrGet, Map.lookup]
+  rw [this, arrGet_init]
+  simp
 
-/-! ### leaf reduce, one agg type -/
+/-! ### leaf reduce: a primitive series is merged into the values of its own agg type -/
 
-theorem reduce_pairs (A : AggType) :
-    ∀ (m : List (Nat × Int)) (acc : Arrays), WF1 A acc → (m.map Prod.fst).Nodup →
-      WF1 A (m.foldl (fun acc (tv : Nat × Int) => aggregateBySlot acc tv.1 tv.2) acc) ∧
-      ∀ t, arrGet (m.foldl (fun acc (tv : Nat × Int) => aggregateBySlot acc tv.1 tv.2) acc) A t =
-        ocomb A (arrGet acc A t) (Map.lookup m t) := by
+/-- merging the (slot, value) pairs of one primitive series of type `B` by type. -/
+theorem reduce_pairs_ofType (B : AggType) :
+    ∀ (m : List (Nat × Int)) (acc : Arrays), KeysOK acc → (m.map Prod.fst).Nodup →
+      KeysOK (m.foldl (fun acc (tv : Nat × Int) => aggregateBySlotOfType acc B tv.1 tv.2) acc) ∧
+      (m.foldl (fun acc (tv : Nat × Int) => aggregateBySlotOfType acc B tv.1 tv.2) acc).map Prod.fst = acc.map Prod.fst ∧
+      ∀ A t, Has acc A = true →
+        arrGet (m.foldl (fun acc (tv : Nat × Int) => aggregateBySlotOfType acc B tv.1 tv.2) acc) A t =
+          if A = B then ocomb A (arrGet acc A t) (Map.lookup m t) else arrGet acc A t := by
   intro m
   induction m with
-  | nil => intro acc hw _; exact ⟨hw, by intro t; simp [Map.lookup]⟩
+  | nil => intro acc hk _; exact ⟨hk, rfl, by intro A t _; by_cases h : A = B <;> simp [h, Map.lookup]⟩
   | cons p rest ih =>
     obtain ⟨k, v⟩ := p
-    intro acc hw hn
+    intro acc hk hn
     simp only [List.map_cons, List.nodup_cons] at hn
-    obtain ⟨hw1, hv1⟩ := aggregateBySlot_single A acc hw k v
-    obtain ⟨hw2, hv2⟩ := ih _ hw1 hn.2
+    obtain ⟨h1, h2, h3⟩ := ih (aggregateBySlotOfType acc B k v) (keysOK_ofType acc B k v hk) hn.2
     simp only [List.foldl_cons]
-    refine ⟨hw2, ?_⟩
-    intro t
-    rw [hv2 t, hv1 t]
-    by_cases hk : k = t
-    · subst hk
-      have : Map.lookup rest k = none := (lookup_none_iff_not_mem rest k).mpr hn.1
-      simp [Map.lookup, this]
-    · simp [Map.lookup, hk]
+    refine ⟨h1, by rw [h2, types_ofType], ?_⟩
+    intro A t hA
+    rw [h3 A t (by rw [has_ofType]; exact hA), arrGet_ofType, hA]
+    by_cases hab : A = B
+    · subst hab
+      by_cases hkt : k = t
+      · subst hkt
+        have : Map.lookup rest k = none := (lookup_none_iff_not_mem rest k).mpr hn.1
+        simp [Map.lookup, this]
+      · simp [Map.lookup, hkt]
+    · simp [hab]
 
-/-- on single-agg-type arrays the by-type step is the plain step. -/
-theorem ofType_eq_single (A : AggType) (a : Arrays) (hw : WF1 A a) (t : Nat) (v : Int) :
-    aggregateBySlotOfType a A t v = aggregateBySlot a t v := by
-  obtain ⟨m, rfl, _⟩ := hw
-  simp [aggregateBySlotOfType, aggregateBySlot]
-
-theorem foldl_ofType_eq (A : AggType) :
-    ∀ (m : List (Nat × Int)) (acc : Arrays), WF1 A acc →
-      m.foldl (fun acc (tv : Nat × Int) => aggregateBySlotOfType acc A tv.1 tv.2) acc =
-      m.foldl (fun acc (tv : Nat × Int) => aggregateBySlot acc tv.1 tv.2) acc := by
+/-- the fallback: the aggregator has no array of the series' type, the values go into all arrays. -/
+theorem reduce_pairs_all :
+    ∀ (m : List (Nat × Int)) (acc : Arrays), KeysOK acc → (m.map Prod.fst).Nodup →
+      KeysOK (m.foldl (fun acc (tv : Nat × Int) => aggregateBySlot acc tv.1 tv.2) acc) ∧
+      (m.foldl (fun acc (tv : Nat × Int) => aggregateBySlot acc tv.1 tv.2) acc).map Prod.fst = acc.map Prod.fst ∧
+      ∀ A t, Has acc A = true →
+        arrGet (m.foldl (fun acc (tv : Nat × Int) => aggregateBySlot acc tv.1 tv.2) acc) A t =
+          ocomb A (arrGet acc A t) (Map.lookup m t) := by
   intro m
   induction m with
-  | nil => intro acc _; rfl
+  | nil => intro acc hk _; exact ⟨hk, rfl, by intro A t _; simp [Map.lookup]⟩
   | cons p rest ih =>
-    intro acc hw
+    obtain ⟨k, v⟩ := p
+    intro acc hk hn
+    simp only [List.map_cons, List.nodup_cons] at hn
+    obtain ⟨h1, h2, h3⟩ := ih (aggregateBySlot acc k v) (keysOK_aggregateBySlot acc k v hk) hn.2
     simp only [List.foldl_cons]
-    rw [ofType_eq_single A acc hw]
-    exact ih _ (aggregateBySlot_single A acc hw p.1 p.2).1
+    refine ⟨h1, by rw [h2, types_aggregateBySlot], ?_⟩
+    intro A t hA
+    rw [h3 A t (by rw [has_aggregateBySlot]; exact hA), arrGet_aggregateBySlot, hA]
+    by_cases hkt : k = t
+    · subst hkt
+      have : Map.lookup rest k = none := (lookup_none_iff_not_mem rest k).mpr hn.1
+      simp [Map.lookup, this]
+    · simp [Map.lookup, hkt]
 
-theorem reduceInto_single (A : AggType) (acc inc : Arrays) (hwa : WF1 A acc) (hwi : WF1 A inc) :
-    WF1 A (reduceInto acc inc) ∧
-    ∀ t, arrGet (reduceInto acc inc) A t = ocomb A (arrGet acc A t) (arrGet inc A t) := by
-  obtain ⟨m, rfl, hn⟩ := hwi
-  have := reduce_pairs A m acc hwa hn
-  have hany : (acc.any fun (x : AggType × List (Nat × Int)) => decide (x.1 = A)) = true := by
-    obtain ⟨m', rfl, _⟩ := hwa
-    simp
-  simp only [reduceInto, List.foldl_cons, List.foldl_nil, hany, if_true]
-  rw [foldl_ofType_eq A m acc hwa]
-  refine ⟨this.1, ?_⟩
-  intro t
-  rw [this.2 t, arrGet_single]
+/-- **`fieldAggregator.Aggregate`, any agg types on both sides**: the array of type `A` of the
+aggregator gets, in the order of the incoming primitive series, the series of type `A` and — the
+fallback — the series whose type the aggregator has no array for; series of the aggregator's
+other types do not touch it. -/
+theorem reduceInto_general :
+    ∀ (inc acc : Arrays), KeysOK acc → KeysOK inc →
+      KeysOK (reduceInto acc inc) ∧ (reduceInto acc inc).map Prod.fst = acc.map Prod.fst ∧
+      ∀ A t, Has acc A = true →
+        arrGet (reduceInto acc inc) A t =
+          ocomb A (arrGet acc A t)
+            (fsum A inc (fun (p : AggType × List (Nat × Int)) =>
+              if p.1 = A ∨ Has acc p.1 = false then Map.lookup p.2 t else none)) := by
+  intro inc
+  induction inc with
+  | nil => intro acc hk _; exact ⟨hk, rfl, by intro A t _; simp [reduceInto, fsum]⟩
+  | cons p rest ih =>
+    obtain ⟨B, m⟩ := p
+    intro acc hk hki
+    have hm : (m.map Prod.fst).Nodup := hki (B, m) (by simp)
+    have hkr : KeysOK rest := fun x hx => hki x (by simp [hx])
+    have hstep : reduceInto acc ((B, m) :: rest) =
+        reduceInto (if Has acc B then m.foldl (fun acc (tv : Nat × Int) => aggregateBySlotOfType acc B tv.1 tv.2) acc
+          else m.foldl (fun acc (tv : Nat × Int) => aggregateBySlot acc tv.1 tv.2) acc) rest := by
+      simp only [reduceInto, List.foldl_cons, any_type_eq_has]
+    rw [hstep]
+    cases hb : Has acc B with
+    | true =>
+      simp only [if_true]
+      obtain ⟨p1, p2, p3⟩ := reduce_pairs_ofType B m acc hk hm
+      obtain ⟨q1, q2, q3⟩ := ih _ p1 hkr
+      refine ⟨q1, by rw [q2, p2], ?_⟩
+      intro A t hA
+      have hA' : Has (m.foldl (fun acc (tv : Nat × Int) => aggregateBySlotOfType acc B tv.1 tv.2) acc) A = true := by
+        by_cases hmem : A ∈ acc.map Prod.fst
+        · exact has_of_mem_types _ A (by rw [p2]; exact hmem)
+        · rw [not_has_of_not_mem acc A hmem] at hA; cases hA
+      rw [q3 A t hA', p3 A t hA, fsum_cons]
+      -- the Has-tests of the rest see the same types
+      have hsame : ∀ C, Has (m.foldl (fun acc (tv : Nat × Int) => aggregateBySlotOfType acc B tv.1 tv.2) acc) C = Has acc C := by
+        intro C
+        by_cases hmem : C ∈ acc.map Prod.fst
+        · rw [has_of_mem_types acc C hmem, has_of_mem_types _ C (by rw [p2]; exact hmem)]
+        · rw [not_has_of_not_mem acc C hmem, not_has_of_not_mem _ C (by rw [p2]; exact hmem)]
+      simp only [hsame]
+      by_cases hab : A = B
+      · subst hab
+        simp [hb, ocomb_assoc]
+      · have : ¬(B = A) := fun e => hab e.symm
+        simp [hab, this, hb]
+    | false =>
+      simp only [Bool.false_eq_true, if_false]
+      obtain ⟨p1, p2, p3⟩ := reduce_pairs_all m acc hk hm
+      obtain ⟨q1, q2, q3⟩ := ih _ p1 hkr
+      refine ⟨q1, by rw [q2, p2], ?_⟩
+      intro A t hA
+      have hsame : ∀ C, Has (m.foldl (fun acc (tv : Nat × Int) => aggregateBySlot acc tv.1 tv.2) acc) C = Has acc C := by
+        intro C
+        by_cases hmem : C ∈ acc.map Prod.fst
+        · rw [has_of_mem_types acc C hmem, has_of_mem_types _ C (by rw [p2]; exact hmem)]
+        · rw [not_has_of_not_mem acc C hmem, not_has_of_not_mem _ C (by rw [p2]; exact hmem)]
+      rw [q3 A t (by rw [hsame]; exact hA), p3 A t hA, fsum_cons]
+      simp only [hsame]
+      simp [hb, ocomb_assoc]
 
-theorem reduce_spec_acc (A : AggType) :
-    ∀ (calls : List Arrays) (acc : Arrays), WF1 A acc → (∀ c ∈ calls, WF1 A c) →
-      WF1 A (calls.foldl reduceInto acc) ∧
-      ∀ t, arrGet (calls.foldl reduceInto acc) A t = ocomb A (arrGet acc A t) (fsum A calls (fun c => arrGet c A t)) := by
+/-- incoming arrays of the same agg types: the array of type `A` gets exactly the series of type `A`. -/
+theorem fsum_entries_eq_arrGet (A : AggType) (t : Nat) :
+    ∀ (inc : Arrays), (inc.map Prod.fst).Nodup →
+      fsum A inc (fun (p : AggType × List (Nat × Int)) => if p.1 = A then Map.lookup p.2 t else none) = arrGet inc A t := by
+  intro inc
+  induction inc with
+  | nil => intro _; rfl
+  | cons p rest ih =>
+    obtain ⟨B, m⟩ := p
+    intro hn
+    simp only [List.map_cons, List.nodup_cons] at hn
+    rw [fsum_cons, ih hn.2]
+    by_cases hb : B = A
+    · subst hb
+      have : arrGet rest B t = none := arrGet_none_of_not_has rest B t (not_has_of_not_mem rest B hn.1)
+      rw [this]
+      simp [arrGet, Map.lookup]
+    · simp [arrGet, Map.lookup, hb]
+
+theorem reduceInto_same_types (L : List AggType) (acc inc : Arrays) (hwa : WFL L acc) (hwi : WFL L inc) :
+    WFL L (reduceInto acc inc) ∧
+    ∀ A, A ∈ L → ∀ t, arrGet (reduceInto acc inc) A t = ocomb A (arrGet acc A t) (arrGet inc A t) := by
+  obtain ⟨g1, g2, g3⟩ := reduceInto_general inc acc hwa.2.2 hwi.2.2
+  refine ⟨⟨by rw [g2]; exact hwa.1, hwa.2.1, g1⟩, ?_⟩
+  intro A hA t
+  rw [g3 A t (has_of_WFL hwa hA)]
+  congr 1
+  rw [← fsum_entries_eq_arrGet A t inc (by rw [hwi.1]; exact hwi.2.1)]
+  apply fsum_congr
+  intro p hp
+  have hpL : p.1 ∈ L := by rw [← hwi.1]; exact List.mem_map_of_mem hp
+  rw [has_of_WFL hwa hpL]
+  simp
+
+theorem reduce_spec_acc (L : List AggType) :
+    ∀ (calls : List Arrays) (acc : Arrays), WFL L acc → (∀ c ∈ calls, WFL L c) →
+      WFL L (calls.foldl reduceInto acc) ∧
+      ∀ A, A ∈ L → ∀ t,
+        arrGet (calls.foldl reduceInto acc) A t = ocomb A (arrGet acc A t) (fsum A calls (fun c => arrGet c A t)) := by
   intro calls
   induction calls with
-  | nil => intro acc hw _; exact ⟨hw, by intro t; simp [fsum]⟩
+  | nil => intro acc hw _; exact ⟨hw, by intro A _ t; simp [fsum]⟩
   | cons c rest ih =>
     intro acc hw hc
-    obtain ⟨hw1, hv1⟩ := reduceInto_single A acc c hw (hc c (by simp))
+    obtain ⟨hw1, hv1⟩ := reduceInto_same_types L acc c hw (hc c (by simp))
     obtain ⟨hw2, hv2⟩ := ih _ hw1 (fun c' h => hc c' (by simp [h]))
     simp only [List.foldl_cons]
     refine ⟨hw2, ?_⟩
-    intro t
-    rw [hv2 t, hv1 t, fsum_cons, ocomb_assoc]
+    intro A hA t
+    rw [hv2 A hA t, hv1 A hA t, fsum_cons, ocomb_assoc]
 
-theorem reduce_spec (A : AggType) (calls : List Arrays) (hw : ∀ c ∈ calls, WF1 A c) (t : Nat) :
-    arrGet (calls.foldl reduceInto (Arrays.init [A])) A t = fsum A calls (fun c => arrGet c A t) := by
-  rw [(reduce_spec_acc A calls _ (WF1_init A) hw).2 t]
-  simp [Arrays.init, arrGet, Map.lookup]
+theorem reduce_spec (L : List AggType) (hL : L.Nodup) (A : AggType) (hA : A ∈ L) (calls : List Arrays)
+    (hw : ∀ c ∈ calls, WFL L c) (t : Nat) :
+    arrGet (calls.foldl reduceInto (Arrays.init L)) A t = fsum A calls (fun c => arrGet c A t) := by
+  rw [(reduce_spec_acc L calls _ (WFL_init L hL) hw).2 A hA t, arrGet_init]
+  simp
+
+/-! ### several fields -/
+
+theorem reduceInto_append (acc x y : Arrays) : reduceInto acc (x ++ y) = reduceInto (reduceInto acc x) y := by
+  simp only [reduceInto, List.foldl_append]
+
+theorem lookup_groupReduce (f : Nat) :
+    ∀ (inc acc : List (Nat × Arrays)) (a0 : Arrays), Map.lookup acc f = some a0 →
+      Map.lookup (groupReduce acc inc) f =
+        some (reduceInto a0 ((inc.filter (fun p => p.1 = f)).flatMap Prod.snd)) := by
+  intro inc
+  induction inc with
+  | nil => intro acc a0 h; simpa [groupReduce, reduceInto] using h
+  | cons p rest ih =>
+    intro acc a0 h
+    have hstep : groupReduce acc (p :: rest) =
+        groupReduce (match Map.lookup acc p.1 with
+          | some a => Map.upsert acc p.1 (reduceInto a p.2)
+          | none => acc) rest := rfl
+    rw [hstep]
+    by_cases hpf : p.1 = f
+    · rw [hpf, h]
+      simp only
+      rw [ih _ (reduceInto a0 p.2) (Map.lookup_upsert_self acc f _)]
+      simp [List.filter_cons, hpf, reduceInto_append]
+    · cases hl : Map.lookup acc p.1 with
+      | none =>
+        simp only
+        rw [ih acc a0 h]
+        simp [List.filter_cons, hpf]
+      | some a =>
+        simp only
+        rw [ih _ a0 (by rw [Map.lookup_upsert_ne _ _ _ _ hpf]; exact h)]
+        simp [List.filter_cons, hpf]
+
+theorem groupReduce_spec (acc inc : List (Nat × Arrays)) (f : Nat) (a0 : Arrays)
+    (hf : Map.lookup acc f = some a0) (hka : KeysOK a0) (hki : ∀ p ∈ inc, KeysOK p.2) (A : AggType)
+    (hA : Has a0 A = true) (t : Nat) :
+    fieldGet (groupReduce acc inc) f A t =
+      ocomb A (arrGet a0 A t)
+        (fsum A ((inc.filter (fun p => p.1 = f)).flatMap Prod.snd) (fun (p : AggType × List (Nat × Int)) =>
+          if p.1 = A ∨ Has a0 p.1 = false then Map.lookup p.2 t else none)) := by
+  unfold fieldGet
+  rw [lookup_groupReduce f inc acc a0 hf]
+  simp only
+  apply (reduceInto_general _ a0 hka _).2.2 A t hA
+  intro x hx
+  rw [List.mem_flatMap] at hx
+  obtain ⟨p, hp, hxp⟩ := hx
+  exact hki p (List.mem_filter.mp hp).1 x hxp
 
 /-! ### the memory query of one page, end to end -/
 
@@ -284,42 +612,24 @@ theorem curValue_noData' {w : Nat} {b : Buf} (hi : BufInv w b) (hd : b.hasData =
   · rfl
   · exact hi.empty hd _
 
-theorem fsum_add {ι : Type} {A : AggType} (hc : AggComm A) (l : List ι) (f g : ι → Option Int) :
-    fsum A l (fun i => ocomb A (f i) (g i)) = ocomb A (fsum A l f) (fsum A l g) := by
-  induction l with
-  | nil => rfl
-  | cons x rest ih =>
-    rw [fsum_cons, fsum_cons, fsum_cons, ih]
-    -- (a ⊕ b) ⊕ (F ⊕ G) = (a ⊕ F) ⊕ (b ⊕ G)
-    rw [ocomb_assoc, ocomb_assoc]
-    congr 1
-    rw [← ocomb_assoc, ← ocomb_assoc, ocomb_comm hc (g x) (fsum A rest f)]
-
-theorem fsum_congr {ι : Type} (A : AggType) (l : List ι) (f g : ι → Option Int) (h : ∀ i ∈ l, f i = g i) :
-    fsum A l f = fsum A l g := by
-  induction l with
-  | nil => rfl
-  | cons x rest ih =>
-    rw [fsum_cons, fsum_cons, h x (by simp), ih (fun i hi => h i (by simp [hi]))]
-
-theorem pageCalls_wf (A : AggType) (b : Buf) (lo hi tLo tHi g0 qs ratio : Nat) :
-    ∀ c ∈ pageCalls [A] b lo hi tLo tHi g0 qs ratio, WF1 A c := by
+theorem pageCalls_wf (L : List AggType) (hL : L.Nodup) (b : Buf) (lo hi tLo tHi g0 qs ratio : Nat) :
+    ∀ c ∈ pageCalls L b lo hi tLo tHi g0 qs ratio, WFL L c := by
   intro c hc
   unfold pageCalls at hc
   cases hcomp : b.compress with
-  | none => simp [hcomp] at hc; subst hc; exact dsCall_wf A _ _ _ _ _ _ _ _
+  | none => simp [hcomp] at hc; subst hc; exact dsCall_wf L hL _ _ _ _ _ _ _ _
   | some cc =>
     simp [hcomp] at hc
-    rcases hc with e | e <;> subst e <;> exact dsCall_wf A _ _ _ _ _ _ _ _
+    rcases hc with e | e <;> subst e <;> exact dsCall_wf L hL _ _ _ _ _ _ _ _
 
 /-- what a memory query computes from one page, whatever its window/compress state:
 the bucket-wise fold of the page's memory view. -/
-theorem pageCalls_spec {w : Nat} {A : AggType} (hc : AggComm A) (b : Buf) (hi' : BufInv w b)
-    (lo hi tLo tHi g0 qs ratio t : Nat) :
-    arrGet ((pageCalls [A] b lo hi tLo tHi g0 qs ratio).foldl reduceInto (Arrays.init [A])) A t =
+theorem pageCalls_spec {w : Nat} {A : AggType} (hc : AggComm A) (L : List AggType) (hL : L.Nodup) (hAL : A ∈ L)
+    (b : Buf) (hi' : BufInv w b) (lo hi tLo tHi g0 qs ratio t : Nat) :
+    arrGet ((pageCalls L b lo hi tLo tHi g0 qs ratio).foldl reduceInto (Arrays.init L)) A t =
       fsum A (slotsOf lo hi)
         (fun s => if tLo ≤ s ∧ s ≤ tHi ∧ (g0 + s - qs) / ratio = t then memView A b s else none) := by
-  rw [reduce_spec A _ (pageCalls_wf A b lo hi tLo tHi g0 qs ratio) t]
+  rw [reduce_spec L hL A hAL _ (pageCalls_wf L hL b lo hi tLo tHi g0 qs ratio) t]
   have hcur : ∀ s, (if b.hasData then curValue b s else none) = curValue b s := by
     intro s
     cases hd : b.hasData with
@@ -331,7 +641,7 @@ theorem pageCalls_spec {w : Nat} {A : AggType} (hc : AggComm A) (b : Buf) (hi' :
     simp only [List.nil_append]
     rw [fsum_cons]
     simp only [fsum, List.foldl_nil, ocomb_none_right]
-    rw [dsCall_spec]
+    rw [dsCall_spec L hL A hAL]
     apply fsum_congr
     intro s _
     simp [memView, hcomp, oldValue, hcur]
@@ -339,7 +649,7 @@ theorem pageCalls_spec {w : Nat} {A : AggType} (hc : AggComm A) (b : Buf) (hi' :
     simp only [List.singleton_append]
     rw [fsum_cons, fsum_cons]
     simp only [fsum, List.foldl_nil, ocomb_none_right]
-    rw [dsCall_spec, dsCall_spec, ← hcomp]
+    rw [dsCall_spec L hL A hAL, dsCall_spec L hL A hAL, ← hcomp]
     have := fsum_add hc (slotsOf lo hi)
       (fun s => if tLo ≤ s ∧ s ≤ tHi ∧ (g0 + s - qs) / ratio = t then oldValue b.compress s else none)
       (fun s => if tLo ≤ s ∧ s ≤ tHi ∧ (g0 + s - qs) / ratio = t then
